@@ -86,11 +86,11 @@ const (
 	LGBe    ID = 5
 )
 const (
-	LBAa    ID = 1
-	LBFr    ID = 2
-	LBDe    ID = 3
-	LBAb    ID = 4
-	LBFr2   ID = 5
+	LBAa  ID = 1
+	LBFr  ID = 2
+	LBDe  ID = 3
+	LBAb  ID = 4
+	LBFr2 ID = 5
 )
 
 // bits
